@@ -27,7 +27,7 @@ H = hexs
 def proj_c03(op, out):
     w = props.first_word(op)
     if w in ('read_string', 'read_stream', 'read_file', 'read_chunked', 'deepnest', 'err', 'dump', 'wf', 'battery', 'leakcheck3',
-             'lookup_all', 'read_stream_fail', 'read_file_ioerr', 'read_string_ioerr', 'read_stream_eagain'):
+             'lookup_all', 'read_stream_fail', 'read_file_ioerr', 'read_string_ioerr', 'read_stream_eagain', 'strbuf_seq', 'strvec_seq'):
         return out
     return None          # cov, mkfile, mkdir, init, set_*: not part of the comparison
 
@@ -512,6 +512,24 @@ def run_C03(ctx):
     io_texts = [b'', b'a = 1;\nb = "two";\n', b'g = { x = (1, 2, [3, 4]); s = "abc" "def"; };\n/* c */ t = 1.5;\n',
                 b'@include "x.cfg"\na = 1;\n', b'a = [1, 2,\n 3];;;; b : { c = 0x1FL; }'] + valid[:3 if quick else 40]
     sessions.append(sess_iofail(io_texts))
+
+    # 8. the container models of Containers.lean against the real strbuf / strvec functions, op by op: every op
+    #    sequence over a small alphabet up to length 4 (thorough: 5) plus long random ones across many growth steps
+    def containers(impl, r, stats):
+        import itertools
+        alpha = ['s0', 's1', 's62', 's63', 's64', 's65', 's127', 's128', 's200', 'c', 'r']
+        Lc = 3 if quick else 4
+        for l in range(1, Lc + 1):
+            for seq in itertools.product(alpha, repeat=l):
+                impl.do('strbuf_seq ' + ','.join(seq)); stats['containers:strbuf'] = stats.get('containers:strbuf', 0) + 1
+        for _ in range(40 if quick else 2000):
+            seq = [r.choice(['s%d' % r.below(300), 'c', 'c', 'c', 's%d' % r.choice([0, 63, 64, 65]), 'r']) for _ in range(r.range(5, 120))]
+            impl.do('strbuf_seq ' + ','.join(seq)); stats['containers:strbuf'] = stats.get('containers:strbuf', 0) + 1
+        for n in (0, 1, 31, 32, 33, 63, 64, 65, 100, 200):
+            impl.do('strvec_seq ' + 'a' * n); impl.do('strvec_seq ' + 'a' * n + 'r' + 'a' * (n // 2 + 1)); stats['containers:strvec'] = stats.get('containers:strvec', 0) + 2
+        for _ in range(30 if quick else 1000):
+            impl.do('strvec_seq ' + ''.join(r.choice('aaaaaaaaaaaaaaaaaaaar') for _ in range(r.range(1, 150)))); stats['containers:strvec'] = stats.get('containers:strvec', 0) + 1
+    sessions.append(containers)
 
     # one harness build, one session per stream
     corr(sessions, 'C03 crash-freedom and usability after a read')
